@@ -749,3 +749,211 @@ fn paired(out : &mut Out, label : &str, coarse : bool, t0 : u64, ops : &[Op], fi
         }
     }
 }
+
+/// C17: a rule that is not reproducible is reported, never silently accepted.
+pub fn contradiction(ctx : &Ctx, out : &mut Out)
+{
+    let mut rng = Rng::new(ctx.seed).fork(17);
+    let n = if ctx.thorough { 3000 } else { 250 };
+    for i in 0..n
+    {
+        let mut r = rng.fork(i as u64);
+        let sc = scenario::gen_scenario(&mut r, &GenParams{max_rules : if ctx.thorough { 7 } else { 5 }, flavor : Flavor::Undeclared});
+        if !sc.well_formed() { continue; }
+        let culprit = match sc.rules.iter().position(|rule| rule.script.iter().any(|l| l.contains("@undeclared"))) { Some(k) => k, None => continue };
+        let driver = Driver::new(ClockMode::Fine, 1_000_000);
+        let mut ops : Vec<Op> = vec![];
+        let mut obs : Vec<String> = vec![];
+        let user = |op : Op, ops : &mut Vec<Op>, obs : &mut Vec<String>| { driver.user(&op); driver.tick(); obs.push(world::show_obs(None, &driver.sys.disk())); ops.push(op); };
+        let invoke = |op : Op, ops : &mut Vec<Op>, obs : &mut Vec<String>| -> Invocation { let inv = driver.invoke(&op, Policy::Serial); driver.tick(); obs.push(world::show_obs(Some(&inv), &driver.sys.disk())); ops.push(op); inv };
+        user(Op::Write(RULES_PATH.to_string(), sc.render().into_bytes()), &mut ops, &mut obs);
+        let mut leaves : BTreeSet<String> = BTreeSet::new();
+        for rule in &sc.rules { for s in &rule.sources { if sc.owner(s).is_none() { leaves.insert(s.clone()); } } }
+        for l in leaves.iter() { user(Op::Write(l.clone(), r.pick(scenario::CONTENTS).as_bytes().to_vec()), &mut ops, &mut obs); }
+        user(Op::Write("undeclared".to_string(), b"U0".to_vec()), &mut ops, &mut obs);
+        let first = invoke(Op::Build(None), &mut ops, &mut obs);
+        if !first.verdict.is_ok() { out.count("first-build-not-ok"); emit_case(out, false, 1_000_000, &ops, &obs, false); continue; }
+        let recorded = disk_files(&first.after);
+
+        // the undeclared input changes; a re-execution of the culprit is forced
+        user(Op::Write("undeclared".to_string(), if r.chance(1, 8) { b"U0".to_vec() } else { b"U1".to_vec() }), &mut ops, &mut obs);
+        let changed_input = driver.sys.read("undeclared") != Some(b"U0".to_vec());
+        let victim = r.pick(&sc.rules[culprit].targets).clone();
+        match r.below(3)
+        {
+            0 => user(Op::Remove(victim.clone()), &mut ops, &mut obs),
+            1 =>
+            {
+                // tamper, build (the tampered copy goes to the cache, the recorded output is not there): same effect
+                user(Op::Write(victim.clone(), b"tampered".to_vec()), &mut ops, &mut obs);
+            },
+            _ =>
+            {
+                // clean, then delete the cache entry of the victim's recorded content
+                invoke(Op::Clean(None), &mut ops, &mut obs);
+                if let Some(c) = recorded.get(&victim) { user(Op::RmCache(cache_name_of(c)), &mut ops, &mut obs); }
+            },
+        }
+        let hist_before : BTreeMap<String, Vec<u8>> = driver.sys.disk().files.iter().filter(|(p, _)| p.starts_with(&history_prefix())).map(|(p, n)| (p.clone(), (*n.content).clone())).collect();
+        let files_before = disk_files(&driver.sys.disk());
+        let second = invoke(Op::Build(None), &mut ops, &mut obs);
+        emit_case(out, false, 1_000_000, &ops, &obs, true);
+
+        // what must happen: the culprit's command ran again on identical declared sources; the targets whose
+        // content now differs from what was recorded are exactly those that must be named
+        let ran = second.commands.iter().any(|(_, l)| sc.rules[culprit].script.contains(l) && l.contains("@undeclared"));
+        if !ran { out.count("culprit-not-re-executed"); continue; }
+        // declared sources identical? (they are: nothing else was edited) — compute the fresh outputs independently
+        let mut env = files_before.clone();
+        for j in sc.order().unwrap_or(vec![])
+        {
+            if j == culprit { break; }
+        }
+        let scratch = from_scratch(&sc, &files_before);
+        let fresh : Vec<Vec<u8>> = match scratch.as_ref().map(|v| &v[culprit]) { Some(RuleOutcome::Built(cs)) => cs.clone(), _ => { out.count("culprit-not-buildable"); continue; } };
+        let _ = env;
+        let mut sorted_targets : Vec<(String, Vec<u8>)> = sc.rules[culprit].targets.iter().cloned().zip(fresh.into_iter()).collect();
+        sorted_targets.sort();
+        let differing : Vec<String> = sorted_targets.iter().filter(|(t, c)| recorded.get(t) != Some(c)).map(|(t, _)| t.clone()).collect();
+        let replay = replay_json("c17", false, 1_000_000, &ops);
+        out.count(if differing.is_empty() { "reproducible-this-time" } else { "not-reproducible" });
+        let want = sexp::paren(&["Contradiction".to_string(), sexp::strs(&differing)]);
+        match &second.verdict
+        {
+            Verdict::WorkErrors(es) =>
+            {
+                let contradictions : Vec<&String> = es.iter().filter(|e| e.starts_with("(Contradiction")).collect();
+                if differing.is_empty()
+                {
+                    if !contradictions.is_empty() { out.violation("C17:contradiction-reported-for-reproducible-rule", format!("the outputs are identical to what was recorded but {} is reported", contradictions[0]), replay.clone()); }
+                }
+                else if contradictions.len() != 1 || *contradictions[0] != want
+                {
+                    out.violation("C17:wrong-contradiction-report", format!("targets {:?} differ from what was recorded; reported: {:?}", differing, contradictions), replay.clone());
+                }
+            },
+            other => if !differing.is_empty()
+            {
+                out.violation("C17:non-reproducible-rule-accepted", format!("re-running the command on identical declared sources changed {:?} but the build verdict is {} (changed input: {})", differing, other.show(), changed_input), replay.clone());
+            },
+        }
+        if !differing.is_empty()
+        {
+            // the earlier record is kept unchanged
+            let hist_after : BTreeMap<String, Vec<u8>> = second.after.files.iter().filter(|(p, _)| p.starts_with(&history_prefix())).map(|(p, n)| (p.clone(), (*n.content).clone())).collect();
+            let culprit_identity = { let rule = &sc.rules[culprit]; crate::rule::Rule::new(rule.targets.clone(), rule.sources.clone(), rule.command_lines(sc.split_tokens)).get_ticket().human_readable() };
+            let key = format!("{}{}", history_prefix(), culprit_identity);
+            if world::bincode_history(hist_before.get(&key).map(|v| &v[..]).unwrap_or(&[])) != world::bincode_history(hist_after.get(&key).map(|v| &v[..]).unwrap_or(&[]))
+            {
+                out.violation("C17:record-changed-by-contradicting-run", "the history of the non-reproducible rule was changed by the contradicting execution".to_string(), replay.clone());
+            }
+            // rules that do not depend on the culprit are brought up to date all the same
+            if let Some(scratch) = &scratch
+            {
+                let mut tainted : BTreeSet<usize> = BTreeSet::new();
+                tainted.insert(culprit);
+                loop
+                {
+                    let more : Vec<usize> = (0..sc.rules.len()).filter(|j| !tainted.contains(j) && sc.rules[*j].sources.iter().any(|s| sc.owner(s).map(|o| tainted.contains(&o)).unwrap_or(false))).collect();
+                    if more.is_empty() { break; }
+                    tainted.extend(more);
+                }
+                let after = disk_files(&second.after);
+                for j in 0..sc.rules.len()
+                {
+                    if tainted.contains(&j) { continue; }
+                    if let RuleOutcome::Built(cs) = &scratch[j]
+                    {
+                        for (t, c) in sc.rules[j].targets.iter().zip(cs.iter())
+                        {
+                            if after.get(t) != Some(c) { out.violation("C17:other-rules-affected", format!("rule {:?} does not depend on the non-reproducible rule but {:?} was not brought up to date", sc.rules[j].targets, t), replay.clone()); }
+                        }
+                    }
+                }
+            }
+        }
+    }
+}
+
+/// C10: clean removes targets into the cache and the next build brings them back.
+pub fn clean_build(ctx : &Ctx, out : &mut Out)
+{
+    let mut rng = Rng::new(ctx.seed).fork(10);
+    let n = if ctx.thorough { 2000 } else { 150 };
+    for i in 0..n
+    {
+        let mut r = rng.fork(i as u64);
+        let mut sc = scenario::gen_scenario(&mut r, &GenParams{max_rules : if ctx.thorough { 8 } else { 5 }, flavor : Flavor::Plain});
+        if !sc.well_formed() { continue; }
+        let unique = i % 2 == 0;
+        if unique
+        {
+            // every target gets a piece naming it: contents are pairwise different
+            for rule in sc.rules.iter_mut() { for l in rule.script.iter_mut() { if l.starts_with("gen ") { let t = l.split(' ').nth(1).unwrap().to_string(); l.push_str(&format!(" ={}", t)); } } }
+        }
+        let driver = Driver::new(ClockMode::Fine, 1_000_000);
+        let mut tr = Tracker::new("c10", true);
+        let mut ops : Vec<Op> = vec![];
+        let mut obs : Vec<String> = vec![];
+        let user = |op : Op, ops : &mut Vec<Op>, obs : &mut Vec<String>| { driver.user(&op); driver.tick(); obs.push(world::show_obs(None, &driver.sys.disk())); ops.push(op); };
+        user(Op::Write(RULES_PATH.to_string(), sc.render().into_bytes()), &mut ops, &mut obs);
+        tr.scenario = Some(sc.clone());
+        tr.ever_targets.extend(sc.all_targets());
+        let mut leaves : BTreeSet<String> = BTreeSet::new();
+        for rule in &sc.rules { for s in &rule.sources { if sc.owner(s).is_none() { leaves.insert(s.clone()); } } }
+        for l in leaves.iter() { user(Op::Write(l.clone(), r.pick(scenario::CONTENTS).as_bytes().to_vec()), &mut ops, &mut obs); }
+        let targets : Vec<String> = sc.all_targets().into_iter().collect();
+        let mut invoke = |op : Op, ops : &mut Vec<Op>, obs : &mut Vec<String>, tr : &mut Tracker, out : &mut Out| -> Invocation
+        {
+            let inv = driver.invoke(&op, Policy::Serial);
+            driver.tick();
+            obs.push(world::show_obs(Some(&inv), &driver.sys.disk()));
+            ops.push(op.clone());
+            monitor_invocation(out, tr, &inv, &op, false, 1_000_000, ops);
+            inv
+        };
+        // some prior history, then a full successful build
+        if r.chance(1, 3) { invoke(Op::Build(Some(r.pick(&targets).clone())), &mut ops, &mut obs, &mut tr, out); }
+        if r.chance(1, 4) { let l : Vec<String> = leaves.iter().cloned().collect(); user(Op::Write(r.pick(&l).clone(), b"edited".to_vec()), &mut ops, &mut obs); tr.last_ok_build = None; }
+        let built = invoke(Op::Build(None), &mut ops, &mut obs, &mut tr, out);
+        if !built.verdict.is_ok() { emit_case(out, false, 1_000_000, &ops, &obs, false); continue; }
+        // some targets executable by the user
+        if r.chance(1, 3) { let t = r.pick(&targets).clone(); user(Op::Chmod(t, true), &mut ops, &mut obs); }
+        let up_to_date = disk_files(&driver.sys.disk());
+        let exec_bits : BTreeMap<String, bool> = driver.sys.disk().files.iter().map(|(p, n)| (p.clone(), n.exec)).collect();
+
+        let clean_goal = if r.chance(1, 2) { None } else { Some(r.pick(&targets).clone()) };
+        let cleaned = invoke(Op::Clean(clean_goal.clone()), &mut ops, &mut obs, &mut tr, out);
+        let build_goal = if r.chance(1, 2) { None } else { Some(r.pick(&targets).clone()) };
+        let rebuilt = invoke(Op::Build(build_goal.clone()), &mut ops, &mut obs, &mut tr, out);
+        emit_case(out, false, 1_000_000, &ops, &obs, true);
+        out.count(&format!("clean:{}-build:{}", if clean_goal.is_some() { "goal" } else { "all" }, if build_goal.is_some() { "goal" } else { "all" }));
+
+        let replay = replay_json("c10", false, 1_000_000, &ops);
+        if !cleaned.verdict.is_ok() { out.violation("C10:clean-fails", format!("clean gives {}", cleaned.verdict.show()), replay.clone()); continue; }
+        if !rebuilt.verdict.is_ok() { out.violation("C10:build-after-clean-fails", format!("the targets were up to date before the clean, but the following build gives {}", rebuilt.verdict.show()), replay.clone()); continue; }
+        let scope_b : BTreeSet<String> = sc.scope(&build_goal).map(|s| s.iter().flat_map(|j| sc.rules[*j].targets.iter().cloned()).collect()).unwrap_or(BTreeSet::new());
+        let after = driver.sys.disk();
+        for t in scope_b.iter()
+        {
+            match after.files.get(t)
+            {
+                None => out.violation("C10:target-not-brought-back", format!("{:?} is missing after the build that follows the clean", t), replay.clone()),
+                Some(node) =>
+                {
+                    if Some(&*node.content) != up_to_date.get(t) { out.violation("C10:target-not-identical", format!("{:?} came back with different content", t), replay.clone()); }
+                    // the executable permission: claimed when contents are pairwise different (one cache file per target)
+                    if unique && Some(&node.exec) != exec_bits.get(t) { out.violation("C10:permission-lost", format!("{:?} came back with executable = {} instead of {:?}", t, node.exec, exec_bits.get(t)), replay.clone()); }
+                },
+            }
+        }
+        let cleaned_scope : BTreeSet<String> = sc.scope(&clean_goal).map(|s| s.iter().flat_map(|j| sc.rules[*j].targets.iter().cloned()).collect()).unwrap_or(BTreeSet::new());
+        let contents : Vec<&Vec<u8>> = cleaned_scope.iter().filter_map(|t| up_to_date.get(t)).collect();
+        let pairwise_different = contents.iter().collect::<BTreeSet<_>>().len() == contents.len();
+        out.count(if pairwise_different { "cleaned-contents:pairwise-different" } else { "cleaned-contents:some-equal" });
+        if pairwise_different && !rebuilt.commands.is_empty()
+        {
+            out.violation("C10:command-ran-after-clean", format!("the cleaned targets' contents are pairwise different, yet the build after the clean ran {:?}", rebuilt.commands.iter().map(|c| c.1.clone()).collect::<Vec<_>>()), replay.clone());
+        }
+    }
+}
